@@ -71,15 +71,23 @@ pub fn family(tier: Tier, seed: u64) -> Vec<SysSpec> {
 }
 
 pub fn cases(tier: Tier, seed: u64, rep: &Report) -> Vec<Case> {
+    let t0 = std::time::Instant::now();
     let specs = family(tier, seed);
+    if std::env::var("PV_PROFILE").is_ok() {
+        eprintln!("family: {} systems in {:?}", specs.len(), t0.elapsed());
+    }
     let mut out = vec![];
     let mut order = 0u64;
     let mut l_hist: std::collections::BTreeMap<String, u64> = Default::default();
+    // the explicit-state oracle for every system, in parallel
+    use rayon::prelude::*;
+    let reaches: Vec<Option<pvcore::tsref::Reach>> =
+        specs.par_iter().map(|spec| if spec.bads.is_empty() { None } else { Some(oracle(spec, Some(KMAX_ORACLE), true)) }).collect();
+    if std::env::var("PV_PROFILE").is_ok() {
+        eprintln!("oracle done at {:?}", t0.elapsed());
+    }
     for (si, spec) in specs.iter().enumerate() {
-        if spec.bads.is_empty() {
-            continue;
-        }
-        let r = oracle(spec, Some(KMAX_ORACLE), true);
+        let Some(r) = reaches[si].clone() else { continue };
         rep.add("states", r.states);
         rep.add("transitions", r.transitions);
         *l_hist.entry(format!("{:?}", r.shortest)).or_insert(0) += 1;
@@ -120,6 +128,24 @@ pub fn cases(tier: Tier, seed: u64, rep: &Report) -> Vec<Case> {
                 out.push(Case { spec: spec.clone(), cfg: McCfg::bmc(p, k, *ind, *simp), expect_fail, l: r.shortest, order });
                 order += 1;
             }
+            // check_constraints = true is only defined when the constraints are satisfiable along
+            // some execution up to the step at which bmc stops (otherwise bmc asserts by design)
+            if tier.is_thorough() || si % 5 == 0 {
+                let mut ctx = patronus::expr::Context::default();
+                let b = spec.build(&mut ctx);
+                let ts = pvcore::tsref::Ts::new(&ctx, &b.sys);
+                let stop_at = if expect_fail { r.shortest.unwrap_or(k) } else { k };
+                if ts.constraints_satisfiable_to(stop_at) == Some(stop_at) {
+                    let p = if no_yices { "z3" } else { PERSONAS[si % 4] };
+                    let mut cfg = McCfg::bmc(p, k, si % 2 == 0, false);
+                    cfg.check_constraints = true;
+                    out.push(Case { spec: spec.clone(), cfg, expect_fail, l: r.shortest, order });
+                    order += 1;
+                    rep.add("check_constraints_sessions", 1);
+                } else {
+                    rep.add("skipped:constraints-unsatisfiable-for-check_constraints", 1);
+                }
+            }
         }
     }
     // interleave the skeleton families so that a budget-capped run covers all of them
@@ -137,6 +163,9 @@ pub fn cases(tier: Tier, seed: u64, rep: &Report) -> Vec<Case> {
     let mut out: Vec<Case> = keyed.into_iter().map(|(_, c)| c).collect();
     for (i, c) in out.iter_mut().enumerate() {
         c.order = i as u64;
+    }
+    if std::env::var("PV_PROFILE").is_ok() {
+        eprintln!("cases built at {:?}", t0.elapsed());
     }
     rep.note("shortest_counterexample_histogram", json!(l_hist));
     // vacuity guard (oracle side): both verdicts and several counterexample lengths
@@ -185,7 +214,7 @@ pub fn run(opts: &Opts, rep: &Report) {
     let budget = Budget::new(opts.budget_s);
     let all = cases(tier, opts.seed, rep);
     rep.add("cases_enumerated", all.len() as u64);
-    let threads = std::thread::available_parallelism().map(|n| n.get()).unwrap_or(8);
+    let threads = crate::common::n_threads();
     // process in slices so that the budget can stop the run between slices
     let mut done = 0usize;
     for chunk in all.chunks(256) {
@@ -221,21 +250,24 @@ pub fn run(opts: &Opts, rep: &Report) {
         done += chunk.len();
     }
     // calibration of the reference solver against real solvers on a slice of the sessions
-    let n_cal = if tier.is_thorough() { 400 } else { 32 };
+    let n_cal = if tier.is_thorough() { 400 } else { 12 };
     let stride = (all.len() / n_cal).max(1);
     let sample: Vec<&Case> = all.iter().step_by(stride).take(n_cal).collect();
     let jobs: Vec<Value> = sample.iter().map(|c| job(&c.spec, &c.cfg, json!({}), true)).collect();
     let results = run_jobs(&jobs, threads, Duration::from_secs(30));
-    for r in results.iter() {
-        if let Some(log) = r["log"].as_str() {
-            match crate::calibrate::cross_check(log) {
-                Ok(n) => rep.add("check_sat_answers_confirmed_by_real_solvers", n),
-                Err(e) => {
-                    eprintln!("MACHINERY: calibration disagreement: {e}");
-                    std::process::exit(2);
+    {
+        use rayon::prelude::*;
+        results.par_iter().for_each(|r| {
+            if let Some(log) = r["log"].as_str() {
+                match crate::calibrate::cross_check(log) {
+                    Ok(n) => rep.add("check_sat_answers_confirmed_by_real_solvers", n),
+                    Err(e) => {
+                        eprintln!("MACHINERY: calibration disagreement: {e}");
+                        std::process::exit(2);
+                    }
                 }
             }
-        }
+        });
     }
 }
 
